@@ -506,6 +506,10 @@ func buildApp(a *App, o *Obs, setEnv *[]string) (*cli.Cli, map[int]*recs, func(c
 						*setEnv = append(*setEnv, aenv)
 					}
 				}
+				if ad.BuiltinInt && !a.Builtin {
+					c.Int(cli.IntArg{Name: ad.Name, SetByUser: sbArg, EnvVar: aenv, HideValue: ad.Hide})
+					continue
+				}
 				if a.Builtin && ad.Int && a.CustomInt {
 					cv := &CustomInts{CustomInt{Multi: true}}
 					c.Var(cli.VarArg{Name: ad.Name, Value: cv, SetByUser: sbArg, EnvVar: aenv})
